@@ -4,6 +4,7 @@
 #include <stdio.h>
 #include <stdlib.h>
 #include <string.h>
+#include <unistd.h>
 
 typedef struct { const char *id; void (*reg)(void); int (*run)(const char *tier); } check_t;
 #define CHECK(x) void x##_register(void); int x##_run(const char *tier);
@@ -56,7 +57,7 @@ int main(int argc, char **argv) {
 	setvbuf(stdout, NULL, _IOLBF, 0);
 	for (check_t *c = checks; c->id; c++) c->reg();
 	hx_symtab_load();
-	if (argc >= 3 && !strcmp(argv[1], "replay")) return do_replay(argv[2]);
+	if (argc >= 3 && !strcmp(argv[1], "replay")) { int rc = do_replay(argv[2]); fflush(stdout); _exit(rc); }
 	if (argc >= 4 && !strcmp(argv[1], "run")) {
 		const char *jobs = getenv("VERIF_JOBS"); int P = jobs ? atoi(jobs) : 20; if (P < 1) P = 1; if (P > 200) P = 200;
 		const char *to = getenv("VERIF_CHILD_TIMEOUT");
